@@ -6,6 +6,7 @@ import Mimium.Proofs.OccursSeq
 import Mimium.Proofs.TypeRecDetect
 import Mimium.Gen.TypingFacts
 import Mimium.Gen.ParentWriters
+import Mimium.Proofs.UnifyAcyclic
 /-!
 # C04 — front end and compile entry points are total on arbitrary text
 
@@ -620,5 +621,42 @@ example :
 /-- non-vacuity: an out-of-range `token_index` falls back to the `Eof` token at `(len, len)` -/
 example : errorSpan (tokenize ⟨fun c => c == 'a', fun c => c == 'a'⟩ Mimium.Lexer.genTables "(é".toList) 7 = (3, 3) := by
   decide +kernel
+
+/-! ## the WHOLE of unification (`Model/Unify.lean` = `unify_types` + `unify_types_args`, every structural arm) -/
+
+open Mimium.Unify in
+/-- Whatever `unify_types` (`args = false`) / `unify_types_args` (`args = true`) answer — `Ok` or `Err`, with ANY fuel — on an
+acyclic store, the store they leave is acyclic and every variable that was bound keeps its parent (only unbound variables are
+bound): the structural arms issue nothing but further calls, failed attempts of the union arms and the four passes of the
+record arm included.  Stores: ALL; types: ALL. -/
+theorem C04_unify_preserves_acyclic (g f : Nat) (args : Bool) (σ σ' : Unify.Store) (t1 t2 : Unify.Ty) (r : Res)
+    (hσ : Occurs.Acyclic (absS σ)) (h : go g f args σ t1 t2 = some (σ', r)) :
+    Occurs.Acyclic (absS σ') ∧ ∀ v p, Occurs.parent σ v = some p → Occurs.parent σ' v = some p :=
+  go_good g f args σ t1 t2 hσ σ' r h
+
+open Mimium.Unify in
+/-- … hence every store a SEQUENCE of unification requests builds from the empty store is acyclic, and `occur_check` and
+`get_root` on it return within the explicit bounds of `C04_occur_check_fuel_bound` -/
+theorem C04_unify_sequence_acyclic (g f : Nat) (reqs : List (Bool × Unify.Ty × Unify.Ty)) (σ : Unify.Store)
+    (h : runSeq g f [] reqs = some σ) :
+    Occurs.Acyclic (absS σ) ∧
+    (∀ v t fuel, Occurs.size (abs t) + Occurs.total (absS σ) ≤ fuel → ∃ b, occurs fuel σ v t = some b) := by
+  have gen : ∀ (reqs : List (Bool × Unify.Ty × Unify.Ty)) (σ0 σ : Unify.Store), Occurs.Acyclic (absS σ0) →
+      runSeq g f σ0 reqs = some σ → Occurs.Acyclic (absS σ) := by
+    intro reqs
+    induction reqs with
+    | nil => intro σ0 σ h0 h; simp only [runSeq, Option.some.injEq] at h; subst h; exact h0
+    | cons q qs ih =>
+      intro σ0 σ h0 h
+      obtain ⟨k, a, b⟩ := q
+      simp only [runSeq] at h
+      cases hc : go g f k σ0 a b with
+      | none => simp [hc] at h
+      | some o =>
+        obtain ⟨σ1, r⟩ := o
+        simp only [hc] at h
+        exact ih σ1 σ (go_good g f k σ0 a b h0 σ1 r hc).1 h
+  have hac := gen reqs [] σ Occurs.acyclic_nil h
+  exact ⟨hac, fun v t fuel hf => Occurs.occ_total_bound (absS σ) hac false v (abs t) fuel hf⟩
 
 end Mimium.Props.C04
